@@ -66,6 +66,7 @@ def run(ctx):
     # ------------------------------------------------------------ generators
     TOKEN = string.ascii_letters + string.digits + "!#$%&'*+-.^_`|~"
     ETAGC = ''.join(chr(c) for c in range(0x21, 0x7f) if chr(c) not in '"') + '\xe9\xff'
+    QDTEXT = '\t !' + ''.join(chr(c) for c in range(0x23, 0x7f) if c != 0x5c)
     COOKIE_OCTET = ''.join(chr(c) for c in range(0x21, 0x7f) if chr(c) not in '",;\\')
 
     def num(maxd=6, lead0=True):
@@ -153,12 +154,46 @@ def run(ctx):
                 elif k == 'by':
                     tok, val, h = gen_node(); e['dest'] = val
                 elif k == 'host':
-                    val = rnd.choice(['example.com', 'a.b.example:8080', 'h']); tok = val if ':' not in val else '"' + val + '"'; e['host'] = val
+                    if rnd.random() < 0.5:
+                        val = rnd.choice(['example.com', 'a.b.example:8080', 'h']); tok = val if ':' not in val else '"' + val + '"'
+                    else:
+                        # any quoted-string (RFC 9110 5.6.4): qdtext = HTAB / SP / %x21 / %x23-5B / %x5D-7E, and quoted-pairs
+                        val = ''.join(rnd.choice(QDTEXT + '"\\') for _ in range(rnd.randint(1, 8)))
+                        tok = '"' + ''.join(('\\' + c) if (c in '"\\' or rnd.random() < 0.1) else c for c in val) + '"'
+                    e['host'] = val
                 else:
                     val = rnd.choice(['http', 'https']); tok = val; e['scheme'] = val
                 pairs.append(kk + '=' + tok)
             elems.append(rnd.choice([';', '; ']).join(pairs) if rnd.random() < 0.9 else ';'.join(pairs)); exp.append(e)
         return rnd.choice([', ', ',']).join(elems), exp
+
+    MTYPES = ['application/json', 'application/xml', 'text/html', 'text/plain', 'application/x-msgpack', 'image/png']
+
+    def gen_accept():
+        """An Accept header from the media-range grammar (no parameters other than q) and its ranges [(type, subtype, q)]."""
+        ranges = []
+        for _ in range(rnd.randint(1, 4)):
+            k = rnd.random()
+            if k < 0.3: t, st = '*', '*'
+            elif k < 0.5: t, st = rnd.choice(MTYPES).split('/')[0], '*'
+            else: t, st = rnd.choice(MTYPES).split('/')
+            q = rnd.choice([None, None, '1', '1.0', '0', '0.0', '0.000', '0.5', '0.8', '0.001', '.5'])
+            ranges.append((t, st, q))
+        sep = rnd.choice([', ', ','])
+        return sep.join(f'{t}/{st}' + ('' if q is None else rnd.choice([';q=', '; q=', ';Q=']) + q) for t, st, q in ranges), ranges
+
+    def rfc_accepts(ranges, media):
+        """RFC 9110 12.5.1: the most specific matching range decides; q=0 means not acceptable."""
+        mt, ms = media.split('/')
+        best = None
+        for t, st, q in ranges:
+            if t == '*' and st == '*': spec = 0
+            elif t == mt and st == '*': spec = 1
+            elif t == mt and st == ms: spec = 2
+            else: continue
+            qv = 1.0 if q is None else float(q)
+            if best is None or spec > best[0] or (spec == best[0] and qv > best[1]): best = (spec, qv)
+        return best is not None and best[1] > 0
 
     def gen_host():
         k = rnd.random()
@@ -253,7 +288,7 @@ def run(ctx):
         stack = rnd.choice(['wsgi', 'asgi'])
         scheme = rnd.choice(['http', 'https'])
         headers = []; expect = {}
-        kinds = rnd.sample(['range', 'date', 'etag', 'cookie', 'forwarded', 'host', 'cl'], rnd.randint(1, 4))
+        kinds = rnd.sample(['range', 'date', 'etag', 'cookie', 'forwarded', 'host', 'cl', 'accept'], rnd.randint(1, 4))
         if mode == 'hostile':
             names = rnd.sample(list(HOSTILE), rnd.randint(1, 4))
             headers = [(casing(n), mutate(rnd.choice(HOSTILE[n])) if rnd.random() < 0.5 else rnd.choice(HOSTILE[n])) for n in names]
@@ -273,6 +308,8 @@ def run(ctx):
                     v, exp = gen_forwarded(); headers.append((casing('Forwarded'), v)); expect['forwarded'] = exp
                 elif k == 'host':
                     v, h, p = gen_host(); headers.append((casing('Host'), v)); expect['host'] = h; expect['port'] = p if p is not None else (443 if scheme == 'https' else 80)
+                elif k == 'accept':
+                    v, ranges = gen_accept(); headers.append((casing('Accept'), v)); expect['accept_ranges'] = ranges
                 else:
                     v = num(9); headers.append((casing('Content-Length'), v)); expect['content_length'] = int(v)
             if mode == 'mutated':
@@ -330,6 +367,16 @@ def run(ctx):
                             failed = failed or f'{a} {hv[hname.lower()]!r} read as {r!r}, RFC reading {dt.isoformat()}'
                 elif a in ('if_match', 'if_none_match'):
                     if r != ('ok', exp): failed = failed or f'{a} {hv[a.replace("_", "-")]!r} read as {r!r}, RFC reading {exp!r}'
+                elif a == 'accept_ranges':
+                    for media in MTYPES:
+                        try:
+                            got = req.client_accepts(media)
+                        except Exception as e:  # noqa
+                            got = repr(e)
+                        want = rfc_accepts(exp, media)
+                        if got != want: failed = failed or f'client_accepts({media!r}) with Accept {hv["accept"]!r} is {got!r}, RFC 9110 reading {want!r}'
+                    for prop, media in (('client_accepts_json', 'application/json'), ('client_accepts_xml', 'application/xml')):
+                        if obs[prop] != ('ok', rfc_accepts(exp, media)): failed = failed or f'{prop} with Accept {hv["accept"]!r} is {obs[prop]!r}'
                 elif a == 'cookies':
                     first = {}
                     for n, v, q in exp: first.setdefault(n, (v, q))
